@@ -36,13 +36,29 @@ pub fn strip_unknown(b: &[u8]) -> Vec<u8> {
 	}
 	let mut pos = 15 + 1 + tsz;
 	let raw_end = 15 + raw_len;
+	// the blocks of a Message Splitter sequence belong to the event they wrap (named in the block): they
+	// stay or go with it
+	let mut pending: Vec<(usize, usize)> = vec![];
 	while pos < raw_end {
 		let code = b[pos];
 		let sz = sizes[code as usize];
-		if KNOWN.contains(&code) {
+		if code == 0x10 && sz == 516 {
+			pending.push((pos, pos + 1 + sz));
+			if b[pos + 1 + 515] != 0 {
+				if KNOWN.contains(&b[pos + 1 + 514]) {
+					for (a, z) in &pending {
+						raw.extend_from_slice(&b[*a..*z]);
+					}
+				}
+				pending.clear();
+			}
+		} else if KNOWN.contains(&code) {
 			raw.extend_from_slice(&b[pos..pos + 1 + sz]);
 		}
 		pos += 1 + sz;
+	}
+	for (a, z) in &pending {
+		raw.extend_from_slice(&b[*a..*z]);
 	}
 	let mut out = SIGNATURE.to_vec();
 	out.extend_from_slice(&(raw.len() as u32).to_be_bytes());
@@ -229,10 +245,19 @@ pub fn bases(quick: bool) -> Vec<AbsReplay> {
 			b.ends = 2;
 			out.push(b);
 		}
+		if quick && (v == (3, 16) || v == (2, 0)) {
+			// no Game End: an unknown event can then be the very last thing in the raw element
+			let mut b = a.clone();
+			b.ends = 0;
+			out.push(b);
+		}
 		if !quick {
 			let mut b = a.clone();
 			b.ends = 2;
 			out.push(b);
+			let mut b0 = a.clone();
+			b0.ends = 0;
+			out.push(b0);
 			let mut c = a.clone();
 			c.metadata = None;
 			if spec::regime(v) > 0 {
@@ -263,7 +288,7 @@ pub fn with_unknown(doc: &Doc, ins: &[(usize, usize)]) -> Vec<u8> {
 
 pub fn run() {
 	let cx = ctx();
-	cx.note("rule", json!("(a) replays of every framing regime (with gecko blocks where they exist) x unknown events (code,size) in {(0x3E,1),(0x40,2),(0x11,600),(0xFF,4),(0x00,7),(0x7E,65535)} declared in the payload table and inserted at every event boundary after Game Start (between splitter blocks, inside frames, before/after Game End): all single insertions, all pairs (multisets; same or different boundary), and a run of three; plus EVERY one of the 246 undefined codes singly at three boundaries; the game must equal the one read from the same replay with the unknown events removed, and the model. (b) versions {3.17, 3.255, 4.0, 255.255} with 3.16 content and +1/+3/+17 trailing bytes on each known event kind alone and on all together (Game Start and Game End included), table updated: every known field equals the un-extended parse; start.bytes/end.bytes carry the extra bytes. Non-trivial = contains at least one unknown event / extended payload"));
+	cx.note("rule", json!("(a) replays of every framing regime (with gecko blocks where they exist) x unknown events (code,size) in {(0x3E,1),(0x40,2),(0x11,600),(0xFF,4),(0x00,7),(0x7E,65535)} declared in the payload table and inserted at every event boundary after Game Start (between splitter blocks, inside frames, before/after Game End): all single insertions, all pairs (multisets; same or different boundary), and a run of three; plus EVERY one of the 246 undefined codes singly at three boundaries; plus unknown events cut into Message Splitter blocks (1, 512, 700 bytes) at four boundaries; bases with one, two and no Game End; the game must equal the one read from the same replay with the unknown events removed, and the model. (b) versions {3.17, 3.255, 4.0, 255.255} with 3.16 content and +1/+3/+17 trailing bytes on each known event kind alone and on all together (Game Start and Game End included), table updated: every known field equals the un-extended parse; start.bytes/end.bytes carry the extra bytes. Non-trivial = contains at least one unknown event / extended payload"));
 	cx.note("exhaustive", json!(true));
 	cx.note("assumptions", json!(["unknown = an event code outside the 10 codes the format defines up to 3.16"]));
 	let mut jobs: Vec<(Arc<Doc>, String, Vec<(usize, usize)>)> = vec![];
@@ -334,6 +359,44 @@ pub fn run() {
 		let bytes = Arc::new(d.assemble());
 		let p = P { class: "any-code", ..Default::default() };
 		eval_case("unknown_events", o_unknown, &bytes, &p, || format!("{} + unknown event code {:#04x} ({} bytes) at boundary {}", label, code, size, at), local);
+	});
+	// an unknown event too large for one event arrives cut into Message Splitter blocks, the way Gecko codes do
+	// (700 bytes = two blocks, 512 bytes = one full block), wrapped code 0x3E / 0xFE
+	let mut wrapped_jobs: Vec<(Vec<u8>, String)> = vec![];
+	for a in bases(true) {
+		let doc = record(&a).doc;
+		let nb = doc.events.len();
+		let after_gecko = doc.events.iter().rposition(|e| e.code == 0x10).map_or(1, |i| i + 1);
+		for (code, total) in [(0x3Eu8, 700usize), (0xFE, 512), (0x3E, 1)] {
+			for at in [1usize, after_gecko, (nb + 1) / 2, nb] {
+				let mut d = doc.clone();
+				if d.size_of(0x10).is_none() {
+					d.table.push((0x10, 516));
+				}
+				d.table.push((code, total as u16));
+				let data: Vec<u8> = (0..total).map(|i| fill_byte(Fill::B, 0x71, i)).collect();
+				let chunks: Vec<&[u8]> = data.chunks(512).collect();
+				let mut evs = vec![];
+				for (ci, ch) in chunks.iter().enumerate() {
+					let mut pl = ch.to_vec();
+					pl.resize(512, 0xEE);
+					pl.extend_from_slice(&(ch.len() as u16).to_be_bytes());
+					pl.push(code);
+					pl.push((ci + 1 == chunks.len()) as u8);
+					evs.push(Ev { code: 0x10, payload: pl, tag: Tag::Unknown });
+				}
+				for (k, ev) in evs.into_iter().enumerate() {
+					d.events.insert(at.max(1) + k, ev);
+				}
+				wrapped_jobs.push((d.assemble(), format!("{} + unknown event {:#04x} of {} bytes in splitter blocks at boundary {}", a.describe(), code, total, at)));
+			}
+		}
+	}
+	cx.note("splitter_wrapped_unknown_cases", json!(wrapped_jobs.len()));
+	par_each(wrapped_jobs.into_iter(), |(bytes, label), local| {
+		let bytes = Arc::new(bytes);
+		let p = P { class: "wrapped", ..Default::default() };
+		eval_case("unknown_events", o_unknown, &bytes, &p, || label, local);
 	});
 	cx.note("insertion_cases", json!(jobs.len()));
 	par_each(jobs.into_iter(), |(doc, label, ins), local| {
